@@ -210,6 +210,15 @@ func (t TV) Go() any {
 			out[i] = e.S
 		}
 		return out
+	case "map[any]string/alike": // keys of different types that print alike: 1 and "1", true and "true" ...
+		out := make(map[any]string, 2*len(t.L))
+		for i, e := range t.L {
+			out[i] = e.S + "-int"
+			out[fmt.Sprint(i)] = e.S + "-str"
+			out[int64(i)] = e.S + "-int64"
+		}
+		out[true], out["true"] = "bool", "str-true"
+		return out
 	case "nilmap":
 		var out map[string]any
 		return out
